@@ -180,7 +180,20 @@ def _record_parse(relfile, S):
     # ---- encoder
     enc_items = []   # ("field", name, type) | ("const", expr, type)
     eb = _strip_comments(en["body"]).strip()[1:-1]
+    # `let Left(x) = &self.f else { panic!(..); }; x.encode(buffer);` - the Left content of an Either field is what is written;
+    # the panic makes `self.f is Left` the precondition of this encoder (the record is then emitted as free functions)
+    eb = re.sub(r"let Left\((\w+)\) = &self\.(\w+) else \{\s*panic!\(\"[^\"]*\"\);\s*\};\s*\1\.encode\(buffer\);",
+                r"self.\2.LEFT__.encode(buffer);", eb)
     for stmt in [x.strip() for x in eb.split(";") if x.strip()]:
+        m = re.match(r"^self\.(\w+)\.LEFT__\.encode\(buffer\)$", stmt)
+        if m:
+            fty = ftype.get(m.group(1), "")
+            m2 = re.match(r"^Either<(.+)>$", fty)
+            parts = _split_top(m2.group(1)) if m2 else []
+            if len(parts) != 2:
+                raise GenError("record %s: field %s is matched against Left but is not an Either<A, B>" % (S, m.group(1)))
+            enc_items.append(("left", m.group(1), _norm_ty(parts[0])))
+            continue
         m = re.match(r"^self\.(\w+)\.encode\(buffer\)$", stmt)
         if m:
             if m.group(1) not in ftype:
@@ -217,18 +230,63 @@ def _record_parse(relfile, S):
         ty = _norm_ty(ann) if ann else (None if via == "Decode" else _norm_ty(via))
         dec_items.append(("skip" if var.startswith("_") else "bind", var, ty, offvar, offexpr))
     m = re.match(r"^Ok\(\(\s*%s\s*\{(.*)\}\s*,\s*(\w+)\s*,?\s*\)\)$" % re.escape(S), final.strip(), re.S)
-    if not m:
+    mc = re.match(r"^Ok\(\(\s*%s::new\((.*)\)\s*,\s*(\w+)\s*,?\s*\)\)$" % re.escape(S), final.strip(), re.S)
+    ctor = None
+    lit = []  # (field, var|None, expr|None)   expr "LEFT__" = Either::Left(var)
+    if m:
+        final_off = m.group(2)
+        for f in _split_top(m.group(1)):
+            m2 = re.match(r"^(\w+)\s*:\s*(.+)$", f, re.S)
+            if m2:
+                lit.append((m2.group(1), None, " ".join(m2.group(2).split())))
+            elif re.match(r"^\w+$", f):
+                lit.append((f, f, None))
+            else:
+                raise GenError("record %s: struct literal entry not understood: %r" % (S, f))
+    elif mc:
+        # `Ok((S::new(a, b, ..), offset))`: the value is what the constructor builds from the decoded items; its literal is read
+        # off the real `new` (a parameter used as written, a parameter wrapped in Either::Left, anything else a re-created field)
+        final_off = mc.group(2)
+        args = _split_top(mc.group(1))
+        try:
+            nw = find_item(text, "fn", "new", r"^impl %s\b" % S)
+        except Exception as e:
+            raise GenError("record %s: %s" % (S, e))
+        msig = re.search(r"fn new\s*\((.*)\)\s*->\s*Self", _strip_comments(nw["sig"]), re.S)
+        if not msig:
+            raise GenError("record %s: signature of `new` not understood" % S)
+        params = []
+        for prm in _split_top(msig.group(1)):
+            m2 = re.match(r"^(\w+)\s*:\s*(.+)$", prm, re.S)
+            if not m2:
+                raise GenError("record %s: parameter of `new` not understood: %r" % (S, prm))
+            params.append((m2.group(1), _norm_ty(m2.group(2))))
+        if len(args) != len(params) or not all(re.match(r"^\w+$", a) for a in args):
+            raise GenError("record %s: decode calls `new` with arguments this reader does not understand" % S)
+        arg_of = {pn: a for (pn, _), a in zip(params, args)}
+        mb = re.match(r"^\{\s*Self\s*\{(.*)\}\s*\}$", _strip_comments(nw["body"]).strip(), re.S)
+        if not mb:
+            raise GenError("record %s: body of `new` is not a single `Self { .. }` literal" % S)
+        for f in _split_top(mb.group(1)):
+            m2 = re.match(r"^(\w+)\s*:\s*(.+)$", f, re.S)
+            if m2:
+                e = " ".join(m2.group(2).split())
+                m3 = re.match(r"^Either::Left\((\w+)\)$", e)
+                if m3 and m3.group(1) in arg_of:
+                    lit.append((m2.group(1), arg_of[m3.group(1)], "LEFT__"))
+                elif re.match(r"^\w+$", e) and e in arg_of:
+                    lit.append((m2.group(1), arg_of[e], None))
+                else:
+                    if any(re.search(r"\b%s\b" % re.escape(pn), e) for pn, _ in params):
+                        raise GenError("record %s: `new` computes field %s from a parameter (%s)" % (S, m2.group(1), e))
+                    lit.append((m2.group(1), None, e))
+            elif re.match(r"^\w+$", f) and f in arg_of:
+                lit.append((f, arg_of[f], None))
+            else:
+                raise GenError("record %s: entry of the literal of `new` not understood: %r" % (S, f))
+        ctor = {"params": params, "args": args, "impl": r"^impl %s\b" % S}
+    else:
         raise GenError("record %s: decode result of unsupported shape: %r" % (S, final[:80]))
-    final_off = m.group(2)
-    lit = []  # (field, var|None, expr|None)
-    for f in _split_top(m.group(1)):
-        m2 = re.match(r"^(\w+)\s*:\s*(.+)$", f, re.S)
-        if m2:
-            lit.append((m2.group(1), None, " ".join(m2.group(2).split())))
-        elif re.match(r"^\w+$", f):
-            lit.append((f, f, None))
-        else:
-            raise GenError("record %s: struct literal entry not understood: %r" % (S, f))
     bound = {it[1] for it in dec_items if it[0] == "bind"}
     for (fld, var, expr) in lit:
         if fld not in ftype:
@@ -239,9 +297,21 @@ def _record_parse(relfile, S):
         raise GenError("record %s: literal does not set every field" % S)
     # types of inferred binds come from the field they initialise
     d2 = []
+    field_of_var = {}
+    for (fld, var, expr) in lit:
+        if var is not None:
+            t = ftype[fld]
+            if expr == "LEFT__":
+                m2 = re.match(r"^Either<(.+)>$", t)
+                t = _norm_ty(_split_top(m2.group(1))[0]) if m2 else None
+            field_of_var[var] = t
+    if ctor:
+        # a decoded item handed to `new` has the type of the parameter it is passed for (whatever `new` then does with it)
+        for (pn, pt), a in zip(ctor["params"], ctor["args"]):
+            field_of_var.setdefault(a, pt)
     for (k_, var, ty, offvar, offexpr) in dec_items:
         if k_ == "bind":
-            fty = ftype.get(var)
+            fty = field_of_var.get(var)
             if fty is None:
                 raise GenError("record %s: bound variable %s is not a field" % (S, var))
             if ty is not None and ty != fty:
@@ -249,7 +319,8 @@ def _record_parse(relfile, S):
             ty = fty
         d2.append((k_, var, ty, offvar, offexpr))
     return {"file": relfile, "name": S, "fields": fields, "enc": enc_items, "dec": d2, "lit": lit, "final_off": final_off,
-            "enc_impl": r"^impl Encode for %s\b" % S, "dec_impl": r"^impl Decode for %s\b" % S}
+            "enc_impl": r"^impl Encode for %s\b" % S, "dec_impl": r"^impl Decode for %s\b" % S, "ctor": ctor,
+            "free": ctor is not None or any(it[0] == "left" for it in enc_items)}
 
 
 def _ty_parts(t):
@@ -305,6 +376,7 @@ def record_codecs(*specs):
         out.append("impl Decode for %s {\n    open spec fn dec(bytes: Seq<u8>, offset: int) -> Option<(Self, int)> { dec_%s(bytes, offset) }\n    open spec fn dec_safe(bytes: Seq<u8>, offset: int) -> bool { dec_safe_%s(bytes, offset) }\n    #[verifier::external_body]\n    fn decode(bytes: &[u8], offset: usize) -> (r: Result<(Self, usize), VErr>) { unimplemented!() }\n}" % (L, M, M))
         out.append("impl Storable for %s { open spec fn okv(&self) -> bool { okv_%s(*self) } }" % (L, M))
     out.append("")
+    either_done = []
     consts = {}   # expr -> (spec name, exec name, type)
     fixeds = {}   # (type, expr) -> (spec, exec)
     for r in recs:
@@ -317,6 +389,8 @@ def record_codecs(*specs):
         for (k, a, ty) in r["enc"]:
             if k == "field":
                 xs.append(("self.%s" % a, ty))
+            elif k == "left":
+                xs.append(("self.%s->Left_0" % a, ty))
             elif k == "none":
                 xs.append((a, ty))
             else:
@@ -334,7 +408,7 @@ def record_codecs(*specs):
         dec_rewrites = []
         fixed_of = {}
         for (fld, var, expr) in r["lit"]:
-            if expr is not None:
+            if expr is not None and expr != "LEFT__":
                 key = (ftype[fld], expr)
                 if key not in fixeds:
                     nm = "fixed_%s_%s" % (_mangle(ftype[fld]), _mangle(expr))
@@ -346,9 +420,18 @@ def record_codecs(*specs):
                 dec_rewrites.append(("%s: %s," % (fld, expr), "%s: %s_x()," % (fld, fixeds[key])))
         n = len(xs)
         # ---- Storable
-        conj = ["self.%s.okv()" % a for (k, a, ty) in r["enc"] if k == "field"]
+        conj = []
+        for (k, a, ty) in r["enc"]:
+            if k == "field":
+                conj.append("self.%s.okv()" % a)
+            elif k == "left":
+                conj += ["self.%s is Left" % a, "self.%s->Left_0.okv()" % a]
         conj += ["self.%s == %s()" % (fld, nm) for fld, nm in fixed_of.items()]
-        stored = {a for (k, a, ty) in r["enc"] if k == "field"}
+        stored = {a for (k, a, ty) in r["enc"] if k in ("field", "left")}
+        if r["free"] and not either_done:
+            either_done.append(1)
+            out.append("// either::Either as a plain enum")
+            out.append("pub enum Either<L, R> { Left(L), Right(R) }\nuse Either::{Left, Right};")
         unstored = [f for f, _ in r["fields"] if f not in stored and f not in fixed_of]
         out.append("impl Storable for %s {\n    open spec fn okv(&self) -> bool {\n        %s\n    }\n}" % (S, "\n        && ".join(conj) if conj else "true"))
         # ---- Encode
@@ -361,15 +444,36 @@ def record_codecs(*specs):
             bot.append("            assert(b0 + ee%d + %s.enc() =~= b0 + ee%d);" % (i - 1, x, i))
         bot.append("            assert(b0 + ee0 =~= b0);")
         bot.append("        }")
-        d = ["impl Encode for %s {" % S, "    open spec fn enc(&self) -> Seq<u8> { %s }" % enc_expr, "",
-             "    /*@extract %s :: impl %s :: fn encode" % (r["file"], r["enc_impl"])]
-        for a, b in enc_rewrites:
-            d.append('rewrite* N37 "%s" => "%s"' % (a, b))
-        d.append("bottom:")
-        d += bot
-        d.append("@*/")
-        d.append("}")
-        out += d
+        FREE = r["free"]
+        if FREE:
+            # a record whose encoder has a precondition (an Either field that must be Left) cannot implement the trait method
+            # (no `requires` on a trait impl): encoder, decoder and constructor become free functions over the same real bodies,
+            # the abstract encoding / decoder plain spec functions, the law a predicate of its own
+            lefts = [a for (k, a, ty) in r["enc"] if k == "left"]
+            d = ["pub open spec fn enc_%s(v: %s) -> Seq<u8> { %s }" % (S, S, enc_expr.replace("self.", "v.")), "",
+                 "/*@extract %s :: impl %s :: fn encode" % (r["file"], r["enc_impl"]),
+                 "sig:", "    pub fn %s_encode(this: &%s, buffer: &mut Vec<u8>)" % (S, S),
+                 'rewrite_re* SELF "\\\\bself\\\\b" => "this"']
+            for a, b in enc_rewrites:
+                d.append('rewrite* N37 "%s" => "%s"' % (a, b))
+            d.append("contract:")
+            d.append("    // the `panic!` of the encoder: the Either field holds the Left form (what `new` builds)")
+            d.append("    requires " + ", ".join("this.%s is Left" % a for a in lefts) + ",")
+            d.append("    ensures final(buffer)@ == old(buffer)@ + enc_%s(*this)," % S)
+            d.append("bottom:")
+            d += [x.replace("self.", "this.") for x in bot]
+            d.append("@*/")
+            out += d
+        else:
+            d = ["impl Encode for %s {" % S, "    open spec fn enc(&self) -> Seq<u8> { %s }" % enc_expr, "",
+                 "    /*@extract %s :: impl %s :: fn encode" % (r["file"], r["enc_impl"])]
+            for a, b in enc_rewrites:
+                d.append('rewrite* N37 "%s" => "%s"' % (a, b))
+            d.append("bottom:")
+            d += bot
+            d.append("@*/")
+            d.append("}")
+            out += d
         # ---- Decode
         dec_lines = []
         safe_lines = []
@@ -380,11 +484,39 @@ def record_codecs(*specs):
             safe_lines.append("        <%s>::dec_safe(bytes, %s) && match <%s>::dec(bytes, %s) { None => true, Some((_, %s)) =>" % (ty, offexpr, ty, offexpr, offvar))
             closers += 1
         off = r["final_off"]
-        litx = ", ".join((fld if var else "%s: %s()" % (fld, fixed_of[fld])) for (fld, var, expr) in r["lit"])
+        def lit_entry(fld, var, expr):
+            if expr == "LEFT__":
+                return "%s: Either::Left(%s)" % (fld, var)
+            if var:
+                return fld if var == fld else "%s: %s" % (fld, var)
+            return "%s: %s()" % (fld, fixed_of[fld])
+        litx = ", ".join(lit_entry(*e) for e in r["lit"])
         dec_lines.append("        Some((%s { %s }, %s))" % (S, litx, off))
         dec_lines.append("        " + "}" * closers)
         safe_lines.append("        true")
         safe_lines.append("        " + "}" * closers)
+        if FREE:
+            d = ["pub open spec fn dec_%s(bytes: Seq<u8>, offset: int) -> Option<(%s, int)> {" % (S, S)] + dec_lines + ["}",
+                 "pub open spec fn dec_safe_%s(bytes: Seq<u8>, offset: int) -> bool {" % S] + safe_lines + ["}", ""]
+            if r["ctor"]:
+                c = r["ctor"]
+                plit = ", ".join(("%s: Either::Left(%s)" % (fld, c["params"][c["args"].index(var)][0]) if expr == "LEFT__"
+                                  else ("%s: %s" % (fld, c["params"][c["args"].index(var)][0]) if var else "%s: %s()" % (fld, fixed_of[fld])))
+                                 for (fld, var, expr) in r["lit"])
+                d += ["impl %s {" % S,
+                      "/*@extract %s :: impl %s :: fn new" % (r["file"], c["impl"]), "ret: r"]
+                for a, b in dec_rewrites:
+                    d.append('rewrite_re N37 "%s" => "%s"' % ((r"\b" + re.escape(a)).replace("\\", "\\\\"), b))
+                d += ["contract:", "    ensures r == (%s { %s })," % (S, plit), "@*/", "}", ""]
+            d += ["/*@extract %s :: impl %s :: fn decode" % (r["file"], r["dec_impl"]),
+                  "sig:", "    pub fn %s_decode(bytes: &[u8], offset: usize) -> (r: Result<(%s, usize), VErr>)" % (S, S),
+                  "contract:",
+                  "    requires dec_safe_%s(bytes@, offset as int)," % S,
+                  "    ensures",
+                  "        r is Ok ==> dec_%s(bytes@, offset as int) == Some(((r->Ok_0).0, (r->Ok_0).1 as int))," % S,
+                  "        r is Err ==> dec_%s(bytes@, offset as int) is None," % S,
+                  "@*/"]
+            out += d
         d = ["impl Decode for %s {" % S,
              "    open spec fn dec(bytes: Seq<u8>, offset: int) -> Option<(Self, int)> {"] + dec_lines + ["    }",
              "    open spec fn dec_safe(bytes: Seq<u8>, offset: int) -> bool {"] + safe_lines + ["    }", "",
@@ -394,7 +526,8 @@ def record_codecs(*specs):
             d.append('rewrite N37 "%s" => "%s"' % (a, b))
         d.append("@*/")
         d.append("}")
-        out += d
+        if not FREE:
+            out += d
         # ---- the law
         if len(r["dec"]) != n:
             # still emit the lemma: it cannot be proved, which is the point (the decoder does not read what the encoder wrote)
@@ -406,17 +539,26 @@ def record_codecs(*specs):
         for it in r["dec"]:
             if it[2] not in tys:
                 tys.append(it[2])
-        L = ["// C14: %s decodes back to exactly what was encoded and consumes exactly the bytes that were produced" % S,
-             "#[verifier::spinoff_prover]", "#[verifier::rlimit(40)]",
+        DEC, SAFE, ENCV = ("<%s>::dec" % S, "<%s>::dec_safe" % S, "v.enc()") if not FREE else ("dec_%s" % S, "dec_safe_%s" % S, "enc_%s(v)" % S)
+        LAW = "codec_law::<%s>()" % S if not FREE else "law_%s()" % S
+        L = []
+        if FREE:
+            L += ["pub open spec fn law_%s() -> bool {" % S,
+                  "    forall|v: %s, pre: Seq<u8>, post: Seq<u8>| #![trigger %s(pre + %s + post, pre.len() as int)]" % (S, DEC, ENCV),
+                  "        v.okv() ==> %s(pre + %s + post, pre.len() as int)" % (SAFE, ENCV),
+                  "        && %s(pre + %s + post, pre.len() as int) == Some((v, (pre.len() + %s.len()) as int))" % (DEC, ENCV, ENCV),
+                  "}"]
+        L += ["// C14: %s decodes back to exactly what was encoded and consumes exactly the bytes that were produced" % S,
+             "#[verifier::spinoff_prover]", "#[verifier::rlimit(%d)]" % (40 if not FREE else 120),
              "pub proof fn prop_record_%s()" % S,
              "    requires " + ", ".join("codec_law::<%s>()" % t for t in tys) + ",",
-             "    ensures codec_law::<%s>()," % S, "{"]
+             "    ensures %s," % LAW, "{"]
         for c in sorted(set(consts.values())):
             L.append("    axiom_%s_storable();" % c)
-        L.append("    assert forall|v: %s, pre: Seq<u8>, post: Seq<u8>| #![trigger <%s>::dec(pre + v.enc() + post, pre.len() as int)]" % (S, S))
-        L.append("        v.okv() implies <%s>::dec_safe(pre + v.enc() + post, pre.len() as int)" % S)
-        L.append("        && <%s>::dec(pre + v.enc() + post, pre.len() as int) == Some((v, (pre.len() + v.enc().len()) as int)) by {" % S)
-        L.append("        let b = pre + v.enc() + post;")
+        L.append("    assert forall|v: %s, pre: Seq<u8>, post: Seq<u8>| #![trigger %s(pre + %s + post, pre.len() as int)]" % (S, DEC, ENCV))
+        L.append("        v.okv() implies %s(pre + %s + post, pre.len() as int)" % (SAFE, ENCV))
+        L.append("        && %s(pre + %s + post, pre.len() as int) == Some((v, (pre.len() + %s.len()) as int)) by {" % (DEC, ENCV, ENCV))
+        L.append("        let b = pre + %s + post;" % ENCV)
         L.append("        let ee0 = Seq::<u8>::empty();")
         for i, (x, ty) in enumerate(xs, 1):
             xv = x.replace("self.", "v.")
@@ -439,6 +581,7 @@ def record_codecs(*specs):
     # ---- everything together: from the leaf laws to every record
     derived = []
     assumed = []
+    free_called = []
 
     def derive(t, stack):
         if ("law", t) in derived:
@@ -462,6 +605,8 @@ def record_codecs(*specs):
                 derive(ft, stack + [t])
             derived.append(("law", t))
             derived.append(("call", "prop_record_%s();" % t))
+            if r["free"]:
+                free_called.append(t)
         elif t in ("u8", "u32", "u64"):
             derived.append(("law", t))
             derived.append(("call", "lemma_codec_%s(); lemma_law_of_ok::<%s>();" % (t, t)))
@@ -477,7 +622,7 @@ def record_codecs(*specs):
     out.append("// C14: from the laws of the leaf codecs to every record (and the vectors / options of them that are stored)")
     out.append("pub proof fn prop_records_all()")
     out.append("    requires " + ", ".join("codec_law::<%s>()" % t for t in assumed) + ",")
-    out.append("    ensures " + ", ".join("codec_law::<%s>()" % r["name"] for r in recs) + ",")
+    out.append("    ensures " + ", ".join(("law_%s()" if r["free"] else "codec_law::<%s>()") % r["name"] for r in recs) + ",")
     out.append("{")
     for k, c in derived:
         if k == "call":
